@@ -220,7 +220,7 @@ impl Property for C10 {
     }
     fn rule(&self, tier: Tier) -> String {
         format!(
-            "every event program of 1..={} events (delays {{0,1,t,Y,Y+1}}) x start in {{0,5}} x (n,t) in {:?} x every step schedule of 1..={} steps over \
+            "every event program of 1..={} events (delays {{0,1,t,Y,Y+1}}) x start in {{0,5}} x (n,t) in {:?} x every step schedule of 1..={} steps (3 steps for programs of up to 2 events) over \
              {{dispatch_n_events(0..3), dispatch_events_until(T) for T = every timestamp of the program and +-1ns, add_event while paused at sim_time / +1ns / midway / at / after the next pending timestamp}}, \
              followed by dispatch_all and finish; oracle: the handler log is a valid exactly-once time-ordered schedule (checked against the pending set derived from what was actually dispatched), \
              per-step counts and cut positions, paused sim_time / num_events_remaining / num_events_dispatched, paused adds accepted, and for schedules without external adds equality with the log of the real uninterrupted run; \
@@ -273,7 +273,8 @@ impl Property for C10 {
                         // all schedules of length 1..=maxs (thorough: length 3 only with at most one inject)
                         let mut stack: Vec<Vec<Step>> = alpha.iter().map(|s| vec![*s]).collect();
                         while let Some(sched) = stack.pop() {
-                            if sched.len() < maxs {
+                            // programs of up to 2 events are also stepped with 3-step schedules in the quick tier
+                            if sched.len() < maxs || (sched.len() < 3 && m <= 2) {
                                 for s in &alpha {
                                     if sched.len() == 2 && matches!(s, Step::Inject(_)) && sched.iter().any(|x| matches!(x, Step::Inject(_))) {
                                         continue;
